@@ -5,7 +5,7 @@
 # where verdict is holds | VIOLATION(<kind>) | broken.  Restores /repo and the harness at the end.
 out="$1"; shift
 cd /verif
-ids="${@:-$(ls seeded)}"
+ids="${@:-$(cd seeded && ls -d */ | tr -d /)}"
 props="C01 C02 C03 C04 C05 C06 C07 C08 C09 C10 C11 C12 C13 C14 C15 C16 C17 C18 C19 C20"
 : > "$out"
 for id in $ids; do
